@@ -36,6 +36,7 @@ RULE = (
     "errors injected at drawn file-seam crossings; a read after a successful write must return the last object written to "
     "that path. Non-trivial = at least 3 applied writes or one fired I/O error; distinct = distinct sequence of (op kind, "
     "outcome, object kind, size class, path)."
+    ' Since the second session: georeferenced 3-d networks, tagged 2-d fractures, multi-scale 2-d networks, file names with inner dots, the default txt file name, txt exports rejected for arrays of unequal length onto existing files.'
 )
 STATE_ABSTRACTION = "(per path: kind of last successfully written object or 'indeterminate'/'absent', size class)"
 ASSUMPTIONS = [
